@@ -47,7 +47,7 @@ ARG_ALL = ["omit", "null", "str", "int", "float", "bool", "enum", "list", "obj",
 
 # (families, constants, families replayed without per-offset reader faults)
 QUICK_RUNS = [
-    dict(fams=["frag", "frag3", "dupkey", "indef", "hist", "vars", "refl", "undecl"], alllen=1, smalllen=1, maxtok=4, maxmut=0, muttok=4, rich="FALSE", argstates=ARG_QUICK, vdbulk=1, light=""),
+    dict(fams=["frag", "frag3", "dupkey", "indef", "hist", "vars", "refl", "undecl", "tail"], alllen=1, smalllen=1, maxtok=4, maxmut=0, muttok=4, rich="FALSE", argstates=ARG_QUICK, vdbulk=1, light=""),
     dict(fams=["all"], alllen=2, smalllen=3, maxtok=4, maxmut=0, muttok=4, rich="FALSE", argstates=ARG_QUICK, vdbulk=1, light="all"),
     dict(fams=["deriv"], alllen=1, smalllen=1, maxtok=6, maxmut=1, muttok=5, rich="FALSE", argstates=ARG_QUICK, vdbulk=1, light="deriv"),
     dict(fams=["deep"], alllen=1, smalllen=1, maxtok=4, maxmut=0, muttok=4, rich="FALSE", argstates=ARG_QUICK, vdbulk=1, light="deep"),
@@ -56,7 +56,7 @@ THOROUGH_RUNS = [
     dict(fams=["deep"], alllen=1, smalllen=1, maxtok=4, maxmut=0, muttok=4, rich="FALSE", argstates=ARG_QUICK, vdbulk=1, light="deep"),
     dict(fams=["frag3", "dupkey", "indef", "hist"], alllen=1, smalllen=1, maxtok=4, maxmut=0, muttok=4, rich="FALSE", argstates=ARG_QUICK, vdbulk=1, light=""),
     dict(fams=["frag"], alllen=1, smalllen=1, maxtok=4, maxmut=0, muttok=4, rich="TRUE", argstates=ARG_ALL, vdbulk=1, light=""),
-    dict(fams=["vars", "refl", "undecl"], alllen=1, smalllen=1, maxtok=4, maxmut=0, muttok=4, rich="FALSE", argstates=ARG_ALL, vdbulk=1, light=""),
+    dict(fams=["vars", "refl", "undecl", "tail"], alllen=1, smalllen=1, maxtok=4, maxmut=0, muttok=4, rich="FALSE", argstates=ARG_ALL, vdbulk=1, light=""),
     dict(fams=["all"], alllen=3, smalllen=4, maxtok=4, maxmut=0, muttok=4, rich="FALSE", argstates=ARG_QUICK, vdbulk=1, light="all"),
     dict(fams=["deriv"], alllen=1, smalllen=1, maxtok=8, maxmut=1, muttok=6, rich="FALSE", argstates=ARG_QUICK, vdbulk=1, light="deriv"),
     dict(fams=["deriv"], alllen=1, smalllen=1, maxtok=6, maxmut=2, muttok=5, rich="FALSE", argstates=ARG_QUICK, vdbulk=1, light="deriv"),
